@@ -19,7 +19,17 @@ is enumerated too (every index with non-zero probability).
      circuit1 : [entangling layer] M(S) for ALL subsets of 5 (6) qubits (reaches complements with >= 3 groups).
      shift    : the same programs after Circuit.shift_qubit_index_(d).
      torch    : the same programs executed by CircuitTorchWrapper.forward.
-     seeded   : MeasureGate with integer seeds, apply_state three times in a row.
+     seeded   : MeasureGate with integer seeds, with seed=None / the seed argument omitted (entropy owned by the engine's EntropySeam),
+                and with ONE real np.random.Generator shared by both measurements (outcomes mirrored by a fresh default_rng(s) drawing
+                choice(len(p), p=p) once per measurement); apply_state three times in a row.
+     index_form: the same programs with Circuit.measure(list | tuple of np.int64 | int | np.int64); bookkeeping (MeasureGate.index,
+                gate_index_list entry, num_qubit) must not depend on the form.
+     compose  : c1 = [front gate] + extend_circuit(c0) (or append_gate entry by entry), c1.shift_qubit_index_(d), d in {0,1,2}; c1 is run
+                and compared with the reference of its own gate_index_list. (Running c0 after c1 was shifted is out of scope: the
+                MeasureGate record objects are shared by design; counted as shared_measure_gate_outside_scope.)
+     torch    : additionally with trainable ry gates (requires_grad=True) ahead of / between the measurements and with complex64 input.
+  A' direct, further argument axes: seed=None and seed omitted on every point; non-contiguous q0 (buf[::2], a column of a 2-D array,
+                NaN padding) bit-identical to the contiguous call; B': one real Generator shared by the two calls of a sequence.
 Oracle: explicit projector P = kron_i |b_i><b_i| embedded with mc.ref.embed (kron + axis permutation); Born marginal =
 <psi|P|psi>; post state P psi/|P psi|.
 """
@@ -38,11 +48,21 @@ RULE = ('state = (qubit count, measured subset(s), input state, history of outco
         'ascending subset x every alphabet state x every outcome with non-zero Born probability is executed on the real '
         'measure_quantum_vector / Circuit.apply_state; transition = one implementation call (or one MeasureGate record) compared with '
         'the explicit-projector reference; trace = one complete history (measure+re-measure, A-then-B and B-then-A, one circuit run) '
-        'validated step by step; non-trivial = the outcome distribution at that point is not 0/1')
+        'validated step by step; non-trivial = the outcome distribution at that point is not 0/1. Argument axes enumerated one deviation '
+        'from the default at a time: index forms (direct and Circuit.measure), seed forms (stub, int, None, omitted, one shared real '
+        'Generator), memory layout of q0 (contiguous, every-second-element view, column view), executor (apply_state, torch wrapper, '
+        'torch wrapper with trainable ry, complex64 input), circuit history (re-use, shift_qubit_index_, extend_circuit/append_gate + shift)')
 ASSUMPTIONS = [
     'qubit 0 is the most significant tensor factor (numqi-wide convention); bitstr[i] is the outcome of qubit index[i] and prob[k] '
     'belongs to the outcome whose big-endian bit string is k',
-    'input states are normalised vectors of length 2^n with a floating dtype; index is an int, a tuple or a list (documented forms)',
+    'input states are normalised vectors of length 2^n with a floating dtype (integer dtypes are outside); any 1-D memory layout; index is '
+    'an int, a tuple or a list of python or numpy integers (documented forms)',
+    'a real np.random.Generator passed as seed is consumed by exactly one choice(len(prob), p=prob) per measurement; the mirror generator '
+    'is fed the returned/recorded prob (which is itself compared with the reference), so the mirrored draw is bit-exact',
+    'seed=None draws from np.random.default_rng(), which the engine seeds (EntropySeam); only validity of the reported outcome is required',
+    'a MeasureGate object belongs to one circuit position: after extend_circuit the outer circuit is run, the inner one is not run again '
+    '(shared record objects are outside the property; counted, not run)',
+    'the torch wrapper computes in the precision numqi chooses; for complex64 input the tolerance uses eps(float32)',
     'the only randomness of a measurement is one call np_rng.choice(len(prob), p=prob); the stub answers it with every index of '
     'non-zero probability in turn',
     'gate matrices inside circuits are taken from the Gate objects and embedded by mc.ref (gate application itself is property C03)',
@@ -271,13 +291,13 @@ def ctx_detail(n, S, name, q, **kw):
     return d
 
 
-def verify_result(out, n, S, q, q_before, res, stub, k_drawn, p_ref, tol, det, exact_zero=True):
+def verify_result(out, n, S, q, q_before, res, stub, k_drawn, p_ref, tol, det, exact_zero=True, ksuf=''):
     """all single-call obligations of the property. `res` = (bitstr, prob, post); stub may be None (real generator).
-    Returns True if the result is usable for continuing the history."""
+    Returns True if the result is usable for continuing the history. ksuf: finding-key suffix of the calling space."""
     m = len(S)
     ok = True
     if not (isinstance(res, tuple) and len(res) == 3):
-        out.violation(FN + '/return_shape', 'does not return (bitstr, prob, q1)', **det)
+        out.violation(FN + '/return_shape' + ksuf, 'does not return (bitstr, prob, q1)', **det)
         return False
     bitstr, prob, post = res
     prob = np.asarray(prob)
@@ -286,63 +306,63 @@ def verify_result(out, n, S, q, q_before, res, stub, k_drawn, p_ref, tol, det, e
     if stub is not None:
         calls = [c for c in stub.log if c[0] == 'choice']
         if len(stub.log) != 1 or len(calls) != 1 or calls[0][1] != 2**m or calls[0][2] is None or calls[0][3] is not None:
-            out.violation(FN + '/sampling_protocol', 'expected exactly one choice(2^m, p=prob) draw, saw %s' % ([(c[0], c[1], c[3]) for c in stub.log],), **det)
+            out.violation(FN + '/sampling_protocol' + ksuf, 'expected exactly one choice(2^m, p=prob) draw, saw %s' % ([(c[0], c[1], c[3]) for c in stub.log],), **det)
             return False
         p_log = calls[0][2]
         if p_log.shape != prob.shape or not np.array_equal(p_log, prob.astype(np.float64)):
-            out.violation(FN + '/prob_returned_is_not_the_sampled_distribution', 'returned prob differs from the p handed to the generator', p_sampled=p_log, p_returned=prob, **det)
+            out.violation(FN + '/prob_returned_is_not_the_sampled_distribution' + ksuf, 'returned prob differs from the p handed to the generator', p_sampled=p_log, p_returned=prob, **det)
             ok = False
     if prob.shape != (2**m,) or prob.dtype.kind != 'f':
-        out.violation(FN + '/prob_shape', 'prob has shape %s dtype %s, expected (%d,) real' % (prob.shape, prob.dtype, 2**m), **det)
+        out.violation(FN + '/prob_shape' + ksuf, 'prob has shape %s dtype %s, expected (%d,) real' % (prob.shape, prob.dtype, 2**m), **det)
         return False
     if not np.all(np.isfinite(prob)):
-        out.violation(FN + '/prob_not_finite', 'NaN/Inf in prob', prob=prob, **det)
+        out.violation(FN + '/prob_not_finite' + ksuf, 'NaN/Inf in prob', prob=prob, **det)
         return False
     if prob.min() < 0:
-        out.violation(FN + '/prob_negative', 'negative probability %g' % prob.min(), prob=prob, **det)
+        out.violation(FN + '/prob_negative' + ksuf, 'negative probability %g' % prob.min(), prob=prob, **det)
         ok = False
     if abs(float(prob.astype(np.float64).sum()) - 1) > tol:
-        out.violation(FN + '/prob_sum', 'probabilities sum to %r' % float(prob.sum()), prob=prob, tol=tol, **det)
+        out.violation(FN + '/prob_sum' + ksuf, 'probabilities sum to %r' % float(prob.sum()), prob=prob, tol=tol, **det)
         ok = False
     err = float(np.abs(prob.astype(np.float64) - p_ref).max())
     if err > tol:
-        out.violation(FN + '/prob_not_born_marginal', 'prob differs from the Born marginal by %.3g (tol %.3g)' % (err, tol), prob=prob, born=p_ref, **det)
+        out.violation(FN + '/prob_not_born_marginal' + ksuf, 'prob differs from the Born marginal by %.3g (tol %.3g)' % (err, tol), prob=prob, born=p_ref, **det)
         ok = False
     if exact_zero:
         bad = np.nonzero((prob > 0) & (p_ref == 0))[0]
         if len(bad):
-            out.violation(FN + '/zero_probability_outcome_reachable', 'outcome %s has Born probability exactly 0 but sampling weight %g' % (bits_of(bad[0], m), prob[bad[0]]), prob=prob, born=p_ref, **det)
+            out.violation(FN + '/zero_probability_outcome_reachable' + ksuf, 'outcome %s has Born probability exactly 0 but sampling weight %g' % (bits_of(bad[0], m), prob[bad[0]]), prob=prob, born=p_ref, **det)
             ok = False
     # --- the outcome
     if not (isinstance(bitstr, (list, tuple)) and len(bitstr) == m and all(int(b) in (0, 1) and int(b) == b for b in bitstr)):
-        out.violation(FN + '/bitstr_malformed', 'bitstr=%r is not a list of %d bits' % (bitstr, m), **det)
+        out.violation(FN + '/bitstr_malformed' + ksuf, 'bitstr=%r is not a list of %d bits' % (bitstr, m), **det)
         return False
     kb = index_of(bitstr)
     if k_drawn is not None and kb != k_drawn:
-        out.violation(FN + '/bitstr_is_not_the_drawn_outcome', 'generator drew index %d (= bits %s of prob) but bitstr=%s' % (k_drawn, bits_of(k_drawn, m), list(bitstr)), **det)
+        out.violation(FN + '/bitstr_is_not_the_drawn_outcome' + ksuf, 'generator drew index %d (= bits %s of prob) but bitstr=%s' % (k_drawn, bits_of(k_drawn, m), list(bitstr)), **det)
         ok = False
     if not (p_ref[kb] > (0 if exact_zero else P_MIN_CIRCUIT)):
-        out.violation(FN + '/outcome_has_zero_probability', 'reported outcome %s has Born probability %g' % (list(bitstr), p_ref[kb]), born=p_ref, **det)
+        out.violation(FN + '/outcome_has_zero_probability' + ksuf, 'reported outcome %s has Born probability %g' % (list(bitstr), p_ref[kb]), born=p_ref, **det)
         return False
     # --- the post-measurement state
     if post.shape != np.asarray(q).shape:
-        out.violation(FN + '/post_shape', 'post state has shape %s' % (post.shape,), **det)
+        out.violation(FN + '/post_shape' + ksuf, 'post state has shape %s' % (post.shape,), **det)
         return False
     if not np.all(np.isfinite(post)):
-        out.violation(FN + '/post_not_finite', 'NaN/Inf in the post-measurement state', bitstr=list(bitstr), **det)
+        out.violation(FN + '/post_not_finite' + ksuf, 'NaN/Inf in the post-measurement state', bitstr=list(bitstr), **det)
         return False
     nrm = float(np.linalg.norm(post.astype(np.complex128)))
     if abs(nrm - 1) > tol:
-        out.violation(FN + '/post_not_normalized', 'post-measurement state has norm %r (outcome %s)' % (nrm, list(bitstr)), bitstr=list(bitstr), post=post, tol=tol, **det)
+        out.violation(FN + '/post_not_normalized' + ksuf, 'post-measurement state has norm %r (outcome %s)' % (nrm, list(bitstr)), bitstr=list(bitstr), post=post, tol=tol, **det)
         ok = False
     _, expect = ref_project(q_before, n, S, kb)
     err = float(np.abs(post.astype(np.complex128) - expect).max())
     if err > tol:
-        out.violation(FN + '/post_not_projection', 'post-measurement state differs from P psi/|P psi| for the reported outcome %s by %.3g (tol %.3g)' % (list(bitstr), err, tol),
+        out.violation(FN + '/post_not_projection' + ksuf, 'post-measurement state differs from P psi/|P psi| for the reported outcome %s by %.3g (tol %.3g)' % (list(bitstr), err, tol),
                       bitstr=list(bitstr), post=post, expected=expect, **det)
         ok = False
     if not np.array_equal(np.asarray(q), q_before):
-        out.violation(FN + '/input_mutated', 'the input vector was modified in place', **det)
+        out.violation(FN + '/input_mutated' + ksuf, 'the input vector was modified in place', **det)
         ok = False
     return ok
 
@@ -351,7 +371,7 @@ def call(numqi, q, index, seed):
     return numqi.sim.state.measure_quantum_vector(q, index, seed)
 
 
-def stub_measure(numqi, out, n, S, q, k, name, index=None, site='direct', p_ref=None, exact_zero=True, extra=None):
+def stub_measure(numqi, out, n, S, q, k, name, index=None, site='direct', p_ref=None, exact_zero=True, extra=None, ksuf=''):
     """one stubbed call + all single-call checks. Returns (ok, res)"""
     stub = StubGenerator([int(k)])
     qb = np.array(q, copy=True)
@@ -360,17 +380,25 @@ def stub_measure(numqi, out, n, S, q, k, name, index=None, site='direct', p_ref=
     try:
         res = call(numqi, q, S if index is None else index, stub)
     except Exception as e:  # any exception on an admissible input is a violation (DESIGN 3.3)
-        out.violation(exc_key(e, complement_groups(n, S)), '%s: measure_quantum_vector raised %s: %s (n=%d, qubits %s, %d groups of unmeasured qubits)'
+        out.violation(exc_key(e, complement_groups(n, S)) + ksuf, '%s: measure_quantum_vector raised %s: %s (n=%d, qubits %s, %d groups of unmeasured qubits)'
                       % (site, type(e).__name__, str(e)[:120], n, list(S), complement_groups(n, S)), **det)
         return False, None
     if p_ref is None:
         p_ref = ref_marginal(qb, n, S)
-    ok = verify_result(out, n, S, q, qb, res, stub, int(k), p_ref, tol_direct(qb), det, exact_zero=exact_zero)
+    ok = verify_result(out, n, S, q, qb, res, stub, int(k), p_ref, tol_direct(qb), det, exact_zero=exact_zero, ksuf=ksuf)
     return ok, res
 
 
 # ----------------------------------------------------------------------------------------------- kind: direct
-def direct_state(numqi, out, n, S, name, q, n_seed):
+def strided_states(tier, n):
+    """state names on which the non-contiguous layouts are enumerated: the whole alphabet (thorough) or one state per class - basis,
+    sparse, product, zero block, complex64, float32 - (quick; the layout can only interact with shape and dtype, not with values)"""
+    if tier != 'quick':
+        return None
+    return {'basis:' + '1' * n, 'w' if n >= 2 else 'plus', 'gprod', 'zero0' if n >= 2 else 'atom0', 'atom0:complex64', 'atom0real:float32'}
+
+
+def direct_state(numqi, out, n, S, name, q, n_seed, strided=True):
     """one (subset, input state) point: every reachable answer, re-measurement, integer seeds. False if the call raises."""
     m = len(S)
     p_ref = ref_marginal(q, n, S)
@@ -428,6 +456,48 @@ def direct_state(numqi, out, n, S, name, q, n_seed):
         reached.add(kb)
         if kb in stub_results and not np.array_equal(stub_results[kb][2], r1[2]):
             out.violation(FN + '/stub_and_real_generator_disagree', 'same outcome %s, different post state under the stub and the real generator' % (r1[0],), **det)
+    # ---- seed=None (the documented default) and the seed argument left out: the engine's EntropySeam owns the entropy, the outcome is
+    #      whatever the real generator draws; all single-call obligations hold for the reported outcome
+    for form in (('None', 'omitted') if strided else ('None',)):  # quick tier: the omitted-argument form on one state per class
+        det = ctx_detail(n, S, name, q, seed=form, site='seed_default')
+        qb = np.array(q, copy=True)
+        out.trans()
+        try:
+            r0 = numqi.sim.state.measure_quantum_vector(q, S, None) if form == 'None' else numqi.sim.state.measure_quantum_vector(q, S)
+        except Exception as e:
+            out.violation(exc_key(e, complement_groups(n, S)) + '/seed_default', 'measure_quantum_vector(seed %s) raised %s: %s' % (form, type(e).__name__, str(e)[:120]), **det)
+            return False
+        if verify_result(out, n, S, q, qb, r0, None, None, p_ref, tol, det, ksuf='/seed_default'):
+            kb = index_of(r0[0])
+            out.count('default_seed_calls_verified')
+            if kb in stub_results and not (np.array_equal(stub_results[kb][1], r0[1]) and np.array_equal(stub_results[kb][2], r0[2])):
+                out.violation(FN + '/stub_and_real_generator_disagree/seed_default', 'same outcome %s, different prob/post state under the stub and the default generator' % (r0[0],), **det)
+    # ---- non-contiguous input (every second element of a longer buffer; a column of a 2-D array), fresh stub, every reachable answer:
+    #      bit-identical to the contiguous call; the padding is NaN (must be neither read nor written)
+    for k, res in (stub_results.items() if strided else ()):
+        for lay in ('step2', 'column'):
+            if lay == 'step2':
+                big = np.full(2 * len(q), np.nan, dtype=q.dtype)
+                big[::2] = q
+                view = big[::2]
+            else:
+                big = np.full((len(q), 3), np.nan, dtype=q.dtype)
+                big[:, 1] = q
+                view = big[:, 1]
+            assert not view.flags['C_CONTIGUOUS'] or len(q) == 1
+            pad_before = np.isnan(big).sum()
+            ok, res2 = stub_measure(numqi, out, n, S, view, k, name, site='strided:' + lay, p_ref=p_ref, extra={'layout': lay}, ksuf='/strided')
+            if res2 is None:
+                return False
+            det = ctx_detail(n, S, name, q, answer=int(k), layout=lay)
+            if np.isnan(big).sum() != pad_before:
+                out.violation(FN + '/input_mutated/strided', 'the buffer around the strided input was written to', **det)
+            if ok:
+                same = list(res2[0]) == list(res[0]) and np.asarray(res2[1]).dtype == np.asarray(res[1]).dtype and np.array_equal(res2[1], res[1]) \
+                    and np.asarray(res2[2]).dtype == np.asarray(res[2]).dtype and np.array_equal(res2[2], res[2])
+                out.check(same, FN + '/strided_input_differs_from_contiguous', 'layout %s: result is not bit-identical to the contiguous call (outcome %s)' % (lay, list(res[0])),
+                          contiguous=[list(res[0]), res[1], res[2]], strided=[list(res2[0]), res2[1], res2[2]], **det)
+                out.count('strided_calls_bit_identical' if same else 'strided_calls_differ')
     out.count('outcomes_reached_by_integer_seeds', len(reached))
     out.count('outcomes_reachable', len(reach))
     return True
@@ -438,8 +508,10 @@ def run_direct(numqi, out, env, n, S):
     m = len(S)
     n_seed = 4 if env.tier == 'quick' else 16
     states = alphabet(n, env, 'direct')
+    sset = strided_states(env.tier, n)
+    assert sset is None or sset <= {x[0] for x in states}
     for name, q in states:
-        if not direct_state(numqi, out, n, S, name, q, n_seed):
+        if not direct_state(numqi, out, n, S, name, q, n_seed, strided=(sset is None or name in sset)):
             break  # exception: reported once per (n,S); every other state raises identically (it depends on the shape only)
     else:
         # ---- index forms (documented: int or tuple; a list is converted by hf_tuple_of_int): one deviation from the default
@@ -510,6 +582,31 @@ def run_path(numqi, out, n, q, name, A, B, tol):
     return ret
 
 
+def shared_generator_path(numqi, out, n, q, name, A, B, sd, tol):
+    rng = np.random.default_rng(sd)
+    mirror = np.random.default_rng(sd)
+    cur = q
+    for step, T in enumerate((A, B)):
+        det = ctx_detail(n, T, name, cur, site='shared_generator', shared_seed=sd, step=step, subsets=[list(A), list(B)])
+        qb = np.array(cur, copy=True)
+        out.trans()
+        try:
+            r = call(numqi, cur, T, rng)
+        except Exception as e:
+            out.violation(exc_key(e, complement_groups(n, T)) + '/shared_generator', 'measure_quantum_vector(seed=Generator) raised %s: %s' % (type(e).__name__, str(e)[:120]), **det)
+            return False
+        if not verify_result(out, n, T, cur, qb, r, None, None, ref_marginal(qb, n, T), tol, det, ksuf='/shared_generator'):
+            return True
+        k = int(mirror.choice(len(r[1]), p=r[1]))
+        out.check(index_of(r[0]) == k, FN + '/shared_generator_draw_order', 'call %d with the shared default_rng(%d) reported %s, a fresh generator drawing once per call gives %s'
+                  % (step, sd, list(r[0]), bits_of(k, len(T))), **det)
+        cur = r[2]
+    out.check(rng.bit_generator.state == mirror.bit_generator.state, FN + '/shared_generator_consumption',
+              'after two calls the shared generator is not in the state of a generator that served one choice() per call', **ctx_detail(n, A, name, q, shared_seed=sd, second_subset=list(B)))
+    out.count('shared_generator_paths')
+    return True
+
+
 def run_seq(numqi, out, env, n, A):
     subsets = all_subsets(n)
     iA = subsets.index(A)
@@ -530,6 +627,12 @@ def run_seq(numqi, out, env, n, A):
                 if abs(x[key][0] - y[key][0]) > 4 * tol or np.abs(x[key][1] - y[key][1]).max() > 4 * tol:
                     out.violation(FN + '/measurements_do_not_commute', 'joint outcome %s: A-then-B and B-then-A differ' % (key,), **det)
             out.trace(2)
+            # ---- one real Generator handed to both measurements (both orders): outcomes are those of a fresh default_rng(s) that draws
+            #      choice(len(p), p=p) once per call, in call order (p = the returned prob, itself compared with the Born marginal)
+            for first, second in ((A, B), (B, A)):
+                for sd in range(1 if env.tier == 'quick' else 4):
+                    if not shared_generator_path(numqi, out, n, q, name, first, second, sd, tol):
+                        break
     out.sample = {'kind': 'seq', 'n': n, 'first': list(A), 'second': list(subsets[-1]), 'state': states[-1][0], 'vector': core.jsonable(states[-1][1])}
 
 
@@ -565,17 +668,39 @@ def shift_events(events, d):
     return ret
 
 
-def build_circuit(numqi, env, events, seeds=None):
-    """the real Circuit for a program; measure gates get a stub generator (seeds=None) or the given integer seeds"""
+INDEX_FORMS = ['list', 'tuple_np.int64', 'int', 'np.int64']  # besides the default tuple of python ints
+
+
+def index_in_form(S, form):
+    """the documented argument forms of `index` (int | tuple[int]; a list is converted by hf_tuple_of_int). The scalar forms exist for
+    |S|=1 only; other measurements of the program keep the default tuple"""
+    if form == 'list':
+        return list(S)
+    if form == 'tuple_np.int64':
+        return tuple(np.int64(x) for x in S)
+    if form == 'int' and len(S) == 1:
+        return int(S[0])
+    if form == 'np.int64' and len(S) == 1:
+        return np.int64(S[0])
+    return tuple(S)
+
+
+def build_circuit(numqi, env, events, seeds=None, index_form=None, trainable=False):
+    """the real Circuit for a program; measure gates get a stub generator (seeds=None) or the given seeds (int, None, a Generator,
+    or 'omitted' = Circuit.measure called without the seed argument). trainable: ry gates are built with requires_grad=True"""
     circ = numqi.sim.Circuit()
     gates = []
     for ev in events:
         if ev[0] == 'M':
             s = StubGenerator([]) if seeds is None else seeds[sum(1 for g in gates if g[0] == 'M')]
-            g = circ.measure(tuple(ev[1]), seed=s)
+            idx = index_in_form(tuple(ev[1]), index_form)
+            g = circ.measure(idx) if isinstance(s, str) and s == 'omitted' else circ.measure(idx, seed=s)
             gates.append(('M', g, s))
         elif ev[0] == 'ry':
-            gates.append(('U', circ.ry(ev[1], theta_of(env, ev[2])), None))
+            if trainable:
+                gates.append(('U', circ.ry(ev[1], theta_of(env, ev[2]), requires_grad=True), None))
+            else:
+                gates.append(('U', circ.ry(ev[1], theta_of(env, ev[2])), None))
         elif ev[0] == 'cnot':
             gates.append(('C', circ.cnot(ev[1], ev[2]), None))
         else:
@@ -622,43 +747,44 @@ def ref_leaves(out, ops, n, psi0):
 CIRC = 'sim.circuit/MeasureGate'
 
 
-def compare_run(out, n, events, ops, leaf, mgates, final, det, site):
-    """one executed circuit run against one reference leaf"""
+def compare_run(out, n, events, ops, leaf, mgates, final, det, site, ksuf='', eps=None):
+    """one executed circuit run against one reference leaf. ksuf: finding-key suffix of the calling space (e.g. '/compose')"""
     answers, records, psi_ref, pathp = leaf
     n_gates = sum(1 for o in ops if o[0] == 'U')
-    eps = np.finfo(np.float64).eps
+    if eps is None:
+        eps = np.finfo(np.float64).eps
     tol = tol_circuit(eps, n_gates, pathp)
     ok = True
     for i, ((S, p), k, (_, g, stub)) in enumerate(zip(records, answers, mgates)):
         out.trans()
         m = len(S)
         if g.bitstr is None or g.probability is None:
-            out.violation(CIRC + '/record_missing', '%s: measurement %d left bitstr/probability unset' % (site, i), **det)
+            out.violation(CIRC + '/record_missing' + ksuf, '%s: measurement %d left bitstr/probability unset' % (site, i), **det)
             ok = False
             continue
         if list(g.bitstr) != bits_of(k, m):
-            out.violation(CIRC + '/bitstr_not_outcome_at_that_point', '%s: measurement %d on %s recorded bitstr=%s, the drawn outcome is %s'
+            out.violation(CIRC + '/bitstr_not_outcome_at_that_point' + ksuf, '%s: measurement %d on %s recorded bitstr=%s, the drawn outcome is %s'
                           % (site, i, list(S), list(g.bitstr), bits_of(k, m)), measurement=i, **det)
             ok = False
         pr = np.asarray(g.probability, dtype=np.float64)
         if pr.shape != p.shape or not np.all(np.isfinite(pr)) or np.abs(pr - p).max() > tol:
-            out.violation(CIRC + '/probability_not_state_at_that_point', '%s: measurement %d on %s recorded probability %s, Born marginal of the state at that point is %s'
+            out.violation(CIRC + '/probability_not_state_at_that_point' + ksuf, '%s: measurement %d on %s recorded probability %s, Born marginal of the state at that point is %s'
                           % (site, i, list(S), np.round(pr, 6).tolist(), np.round(p, 6).tolist()), measurement=i, tol=tol, **det)
             ok = False
         if isinstance(stub, StubGenerator):
             if len(stub.log) != 1 or stub.log[0][0] != 'choice' or stub.log[0][1] != 2**m:
-                out.violation(CIRC + '/sampling_protocol', '%s: measurement %d drew %s' % (site, i, [(c[0], c[1]) for c in stub.log]), **det)
+                out.violation(CIRC + '/sampling_protocol' + ksuf, '%s: measurement %d drew %s' % (site, i, [(c[0], c[1]) for c in stub.log]), **det)
                 ok = False
             elif not np.array_equal(stub.log[0][2], pr):
-                out.violation(CIRC + '/probability_is_not_the_sampled_distribution', '%s: measurement %d recorded a probability vector that is not the one sampled from' % (site, i), **det)
+                out.violation(CIRC + '/probability_is_not_the_sampled_distribution' + ksuf, '%s: measurement %d recorded a probability vector that is not the one sampled from' % (site, i), **det)
                 ok = False
     final = np.asarray(final)
     if final.shape != psi_ref.shape or not np.all(np.isfinite(final)):
-        out.violation('sim.circuit/Circuit.apply_state/final_state_malformed', '%s: final state has shape %s (expected %s) or contains NaN/Inf' % (site, final.shape, psi_ref.shape), final=final, **det)
+        out.violation('sim.circuit/Circuit.apply_state/final_state_malformed' + ksuf, '%s: final state has shape %s (expected %s) or contains NaN/Inf' % (site, final.shape, psi_ref.shape), final=final, **det)
         return False
     err = float(np.abs(final.astype(np.complex128) - psi_ref).max())
     if err > tol:
-        out.violation('sim.circuit/Circuit.apply_state/final_state', '%s: final state differs from the reference by %.3g (tol %.3g) for answers %s' % (site, err, tol, answers),
+        out.violation('sim.circuit/Circuit.apply_state/final_state' + ksuf, '%s: final state differs from the reference by %.3g (tol %.3g) for answers %s' % (site, err, tol, answers),
                       final=final, expected=psi_ref, **det)
         ok = False
     return ok
@@ -668,12 +794,18 @@ def max_groups(events, n):
     return max([complement_groups(n, ev[1]) for ev in events if ev[0] == 'M'] + [0])
 
 
-def run_program(numqi, out, env, n, events, inputs, shift=None, executor='apply_state', site='circuit'):
+def expected_num_qubit(events):
+    return 1 + max(max(ev[1]) if ev[0] == 'M' else max(ev[1:3] if ev[0] == 'cnot' else ev[1:2]) for ev in events)
+
+
+def run_program(numqi, out, env, n, events, inputs, shift=None, executor='apply_state', site='circuit', index_form=None, trainable=False, in_dtype=None, ksuf=''):
     """all answer tuples of one program on every input, on ONE re-used Circuit object (records must be refreshed by every run).
     shift: list of deltas applied with shift_qubit_index_ after construction; the reference is built from the shifted program."""
     det0 = dict(n=n, program=events, shift=shift, executor=executor)
+    if index_form is not None or trainable or in_dtype is not None:
+        det0.update(index_form=index_form, trainable_ry=trainable, input_dtype=in_dtype)
     try:
-        circ, gates = build_circuit(numqi, env, events)
+        circ, gates = build_circuit(numqi, env, events, index_form=index_form, trainable=trainable)
     except Exception as e:
         out.violation(exc_key(e, 0, 'sim.circuit/Circuit.measure'), '%s: building the program raised %s: %s' % (site, type(e).__name__, str(e)[:120]), **det0)
         return
@@ -693,9 +825,27 @@ def run_program(numqi, out, env, n, events, inputs, shift=None, executor='apply_
             if kind == 'M' and tuple(g.index) != tuple(ev[1]):
                 out.violation('sim.circuit/Circuit.shift_qubit_index_/measure_index_not_shifted', 'MeasureGate.index=%s after shift %s of a measurement on %s' % (g.index, shift, ev[1]), **det0)
                 return
-        nq_expect = 1 + max(max(ev[1]) if ev[0] == 'M' else max(ev[1:3] if ev[0] == 'cnot' else ev[1:2]) for ev in ev_run)
+        nq_expect = expected_num_qubit(ev_run)
         if circ.num_qubit != nq_expect:
             out.violation('sim.circuit/Circuit.num_qubit/after_shift', 'num_qubit=%d after shift %s, expected %d' % (circ.num_qubit, shift, nq_expect), **det0)
+    if index_form is not None:
+        # the argument form must not leak into the bookkeeping: MeasureGate.index / gate_index_list entry are the tuple, num_qubit is right
+        for ev, (kind, g, _), (_, idx) in zip(ev_run, gates, circ.gate_index_list):
+            if kind == 'M':
+                good = all(isinstance(x, tuple) and [int(y) for y in x] == list(ev[1]) for x in (g.index, idx))
+                out.check(good, 'sim.circuit/Circuit.measure/index_form_bookkeeping', 'measure(%r): MeasureGate.index=%r, gate_index_list entry %r'
+                          % (index_in_form(tuple(ev[1]), index_form), g.index, idx), **det0)
+        try:
+            nq = circ.num_qubit
+            out.check(nq == expected_num_qubit(ev_run), 'sim.circuit/Circuit.num_qubit/index_form', 'num_qubit=%r, expected %d' % (nq, expected_num_qubit(ev_run)), **det0)
+        except Exception as e:
+            out.violation('sim.circuit/Circuit.num_qubit/index_form/%s' % type(e).__name__, 'num_qubit raised %s: %s' % (type(e).__name__, str(e)[:120]), **det0)
+    execute_program(numqi, out, circ, gates, n_run, ev_run, inputs, det0, executor=executor, site=site, in_dtype=in_dtype, ksuf=ksuf)
+
+
+def execute_program(numqi, out, circ, gates, n_run, ev_run, inputs, det0, executor='apply_state', site='circuit', ksuf='', in_dtype=None):
+    """all answer tuples (reference leaves) of the program `ev_run` on every input, executed on the given Circuit object.
+    gates = [(kind, gate object, stub)] in program order; the reference operators are built from these gate objects."""
     ops = ref_ops(ev_run, gates, n_run)
     mgates = [g for g in gates if g[0] == 'M']
     runner = None
@@ -713,6 +863,8 @@ def run_program(numqi, out, env, n, events, inputs, shift=None, executor='apply_
     else:
         runner = circ.apply_state
     for name, psi0 in inputs(n_run):
+        if in_dtype is not None:
+            psi0 = psi0.astype(in_dtype)  # the reference reads the rounded input exactly
         leaves = ref_leaves(out, ops, n_run, psi0)
         for leaf in leaves:
             out.state()
@@ -724,27 +876,94 @@ def run_program(numqi, out, env, n, events, inputs, shift=None, executor='apply_
             try:
                 final = runner(q_in)
             except Exception as e:
-                out.violation(exc_key(e, max_groups(ev_run, n_run), 'sim.circuit/Circuit.apply_state'),
+                out.violation(exc_key(e, max_groups(ev_run, n_run), 'sim.circuit/Circuit.apply_state') + ksuf,
                               '%s: running the program raised %s: %s (n=%d, measured subsets %s)' % (site, type(e).__name__, str(e)[:120], n_run, [ev[1] for ev in ev_run if ev[0] == 'M']), **det)
                 return
-            ok = compare_run(out, n_run, ev_run, ops, leaf, mgates, final, det, site)
+            eps = None
+            if in_dtype is not None:
+                # reduced-precision input: measure_quantum_vector keeps computing in the input precision (prob float32, post complex64)
+                # until a complex128 gate matrix upcasts the state, so the per-step error is eps(input dtype) (cf. tol_direct)
+                eps = eps_of(psi0)
+            ok = compare_run(out, n_run, ev_run, ops, leaf, mgates, final, det, site, ksuf=ksuf, eps=eps)
             if not np.array_equal(q_in, psi0):
-                out.violation('sim.circuit/Circuit.apply_state/input_mutated', '%s: the input state was modified in place' % site, **det)
+                out.violation('sim.circuit/Circuit.apply_state/input_mutated' + ksuf, '%s: the input state was modified in place' % site, **det)
             out.outcome((n_run, [ev[1] for ev in ev_run if ev[0] == 'M'], list(leaf[0]), [np.round(r[1], 6) for r in leaf[1]]),
                         nontrivial=any(0 < r[1].max() < 1 - 1e-9 for r in leaf[1]))
             if ok:
                 out.trace()
 
 
+def circuit_gates(circ):
+    """[(kind, gate object, stub)] read from the circuit's OWN gate_index_list: after extend_circuit / shift_qubit_index_ the objects
+    may be shared with another circuit or be copies, so they are not taken from build_circuit"""
+    ret = []
+    for g, _ in circ.gate_index_list:
+        if g.kind == 'measure':
+            if not isinstance(g.np_rng, StubGenerator):  # a copied gate may carry a copied (plain) generator
+                g.np_rng = StubGenerator([])
+            ret.append(('M', g, g.np_rng))
+        else:
+            ret.append(('C' if g.kind == 'control' else 'U', g, None))
+    return ret
+
+
+COMPOSE = 'sim.circuit/Circuit.extend_circuit'
+
+
+def run_compose(numqi, out, env, n, events, front, d, via, inputs):
+    """c0 = program, c1 = [front] + c0 (extend_circuit, or append_gate entry by entry), c1.shift_qubit_index_(d); c1 is run on all
+    answers and compared with the reference built from c1's OWN gate_index_list.
+    Out of scope (ruling on the audit list): extend_circuit shares the MeasureGate objects, which are per-position records (index,
+    bitstr, probability), so running c0 again after c1 was shifted is a configuration of two circuits, not of one; it is counted only."""
+    det0 = dict(n=n, program=events, front_gate=front, shift=d, via=via)
+    try:
+        c0, _ = build_circuit(numqi, env, events)
+        c1, _ = build_circuit(numqi, env, [front])
+        if via == 'extend':
+            c1.extend_circuit(c0)
+        else:
+            for gate_i, index_i in c0.gate_index_list:
+                c1.append_gate(gate_i, index_i)
+        c1.shift_qubit_index_(d)
+    except Exception as e:
+        out.violation('%s/%s' % (COMPOSE, type(e).__name__), 'compose (%s, shift %d) raised %s: %s' % (via, d, type(e).__name__, str(e)[:120]), **det0)
+        return
+    out.count('shared_measure_gate_outside_scope')
+    ev1 = shift_events([front] + events, d)
+    entries = [tuple(int(x) for x in idx) for gate, idx in c1.gate_index_list if gate.kind == 'measure']
+    expect = [tuple(ev[1]) for ev in ev1 if ev[0] == 'M']
+    out.check(entries == expect, COMPOSE + '/gate_index_list_entry', 'composed circuit lists measurements on %s, expected %s' % (entries, expect), **det0)
+    out.check(len(c1.gate_index_list) == len(ev1), COMPOSE + '/gate_count', 'composed circuit has %d gates, expected %d' % (len(c1.gate_index_list), len(ev1)), **det0)
+    nq = c1.num_qubit
+    out.check(nq == expected_num_qubit(ev1), 'sim.circuit/Circuit.num_qubit/after_compose', 'composed circuit: num_qubit=%d, expected %d' % (nq, expected_num_qubit(ev1)), **det0)
+    if len(c1.gate_index_list) == len(ev1):
+        execute_program(numqi, out, c1, circuit_gates(c1), n + d, ev1, inputs, det0, site='compose', ksuf='/compose')
+
+
+def seeds_of_spec(spec):
+    """spec: tuple of per-measurement seeds (int | None | 'omitted'), or ('shared', s): ONE real np.random.default_rng(s) handed to every
+    measurement of the program. Returns (seeds for build_circuit, shared generator or None, reproducible?)"""
+    if spec[0] == 'shared':
+        rng = np.random.default_rng(int(spec[1]))
+        return [rng] * 8, rng, True
+    return list(spec), None, all(isinstance(x, int) for x in spec)
+
+
 def run_seeded_program(numqi, out, env, n, events, inputs, seeds_list, repeats=3):
-    """MeasureGate with integer seeds; apply_state `repeats` times in a row on the same object; twice (reproducibility)"""
+    """MeasureGate with the real generator: integer seeds, seed=None / seed argument omitted (entropy owned by the engine), or one
+    np.random.Generator shared by all measurements. apply_state `repeats` times in a row on the same object; built twice
+    (reproducibility, where the spec is reproducible). Shared generator: the recorded outcomes equal those of a fresh default_rng(s) that
+    draws choice(len(p), p=p) once per measurement in program order (p = the recorded probability, itself compared with the reference)."""
     for seeds in seeds_list:
         det0 = dict(n=n, program=events, seeds=list(seeds))
+        ksuf = '/shared_generator' if seeds[0] == 'shared' else ('' if all(isinstance(x, int) for x in seeds) else '/seed_default')
         for name, psi0 in inputs(n):
             hist = []
             for attempt in range(2):
                 try:
-                    circ, gates = build_circuit(numqi, env, events, seeds=list(seeds))
+                    seeds_now, shared, reproducible = seeds_of_spec(seeds)
+                    mirror = np.random.default_rng(int(seeds[1])) if shared is not None else None
+                    circ, gates = build_circuit(numqi, env, events, seeds=seeds_now)
                     mgates = [g for g in gates if g[0] == 'M']
                     ops = ref_ops(events, gates, n)
                     leaves = {tuple(l[0]): l for l in ref_leaves(core.Out(), ops, n, psi0)}
@@ -756,19 +975,29 @@ def run_seeded_program(numqi, out, env, n, events, inputs, seeds_list, repeats=3
                         ans = tuple(index_of(b) for b in bits)
                         seq.append(bits)
                         det = dict(det0, input_name=name, input=psi0, run=r, observed=bits)
+                        if mirror is not None:
+                            expect = [bits_of(int(mirror.choice(len(g.probability), p=g.probability)), len(b)) for (_, g, _), b in zip(mgates, bits)]
+                            out.check(expect == bits, CIRC + '/shared_generator_draw_order', 'shared default_rng(%d): recorded %s, a fresh generator drawing once per measurement gives %s'
+                                      % (seeds[1], bits, expect), expected=expect, **det)
                         if ans not in leaves:
-                            out.violation(CIRC + '/outcome_has_zero_probability', 'seeded: recorded outcomes %s are not reachable at that point of the circuit' % (bits,), **det)
+                            out.violation(CIRC + '/outcome_has_zero_probability' + ksuf, 'seeded: recorded outcomes %s are not reachable at that point of the circuit' % (bits,), **det)
                             continue
-                        if compare_run(out, n, events, ops, leaves[ans], mgates, final, det, 'seeded'):
+                        if compare_run(out, n, events, ops, leaves[ans], mgates, final, det, 'seeded', ksuf=ksuf):
                             out.trace()
                         out.outcome((n, events, bits), nontrivial=len(leaves) > 1)
+                    if mirror is not None:
+                        out.check(shared.bit_generator.state == mirror.bit_generator.state, CIRC + '/shared_generator_consumption',
+                                  'after %d runs the shared generator is not in the state of a generator that served one choice() per measurement' % repeats, input_name=name, **det0)
+                        out.count('shared_generator_programs')
+                    elif not reproducible:
+                        out.count('default_seed_programs')
                 except Exception as e:
-                    out.violation(exc_key(e, max_groups(events, n), 'sim.circuit/Circuit.apply_state'), 'seeded: program raised %s: %s' % (type(e).__name__, str(e)[:120]), input_name=name, **det0)
+                    out.violation(exc_key(e, max_groups(events, n), 'sim.circuit/Circuit.apply_state') + ksuf, 'seeded: program raised %s: %s' % (type(e).__name__, str(e)[:120]), input_name=name, **det0)
                     seq = None
                     break
                 hist.append(seq)
-            if len(hist) == 2 and hist[0] != hist[1]:
-                out.violation(CIRC + '/seed_not_reproducible', 'two circuits built with the same seeds recorded %s and %s' % (hist[0], hist[1]), input_name=name, **det0)
+            if reproducible and len(hist) == 2 and hist[0] != hist[1]:
+                out.violation(CIRC + '/seed_not_reproducible' + ksuf, 'two circuits built with the same seeds recorded %s and %s' % (hist[0], hist[1]), input_name=name, **det0)
 
 
 def circuit_inputs(env):
@@ -814,14 +1043,38 @@ def run_circuit_case(numqi, out, env, case):
             for sh in case['shifts']:
                 run_program(numqi, out, env, n, ev, inputs, shift=sh, site='shift')
         out.sample = {'kind': 'circuit', 'mode': mode, 'n': n, 'program': ev, 'shifts': case['shifts']}
+    elif mode == 'index_form':
+        g1 = case['g1']
+        for ev in programs_two(n, g1, False):
+            for form in INDEX_FORMS:
+                if form in ('int', 'np.int64') and not any(e[0] == 'M' and len(e[1]) == 1 for e in ev):
+                    continue  # no single-qubit measurement: identical to the default program
+                run_program(numqi, out, env, n, ev, inputs, site='index_form:' + form, index_form=form, ksuf='/index_form')
+                out.count('index_form_programs[%s]' % form)
+        out.sample = {'kind': 'circuit', 'mode': mode, 'n': n, 'program': ev, 'forms': INDEX_FORMS}
+    elif mode == 'compose':
+        g1 = case['g1']
+        for ev in programs_two(n, g1, False):
+            for front in case['fronts']:
+                for d in case['shifts']:
+                    for via in ('extend', 'append_gate'):
+                        run_compose(numqi, out, env, n, ev, front, d, via, inputs)
+        out.sample = {'kind': 'circuit', 'mode': mode, 'n': n, 'program': ev, 'fronts': case['fronts'], 'shifts': case['shifts']}
     elif mode == 'torch':
         g1 = case['g1']
         for ev in programs_two(n, g1, False):
             run_program(numqi, out, env, n, ev, inputs, executor='torch', site='torch')
+            if any(e[0] == 'ry' for e in ev):
+                # trainable gate ahead of / between the measurements: the wrapper recomputes its matrix from a torch Parameter
+                run_program(numqi, out, env, n, ev, inputs, executor='torch', site='torch:trainable', trainable=True, ksuf='/trainable')
+                out.count('torch_programs_with_trainable_ry')
+            if case.get('complex64'):
+                run_program(numqi, out, env, n, ev, inputs, executor='torch', site='torch:complex64', trainable=any(e[0] == 'ry' for e in ev),
+                            in_dtype='complex64', ksuf='/complex64')
         out.sample = {'kind': 'circuit', 'mode': mode, 'n': n, 'program': ev}
     elif mode == 'seeded':
         g1 = case['g1']
-        seeds_list = [(s, s + 100) for s in range(case['n_seed'])]
+        seeds_list = [(s, s + 100) for s in range(case['n_seed'])] + case['unseeded'] + [('shared', s) for s in range(case['n_shared'])]
         for ev in programs_two(n, g1, False):
             run_seeded_program(numqi, out, env, n, ev, inputs, seeds_list)
         out.sample = {'kind': 'circuit', 'mode': mode, 'n': n, 'program': ev, 'seeds': seeds_list}
@@ -877,9 +1130,23 @@ def build_cases(tier, seed):
     for n in ([2] if quick else [2, 3]):
         for g1 in gate_menu(n, True):
             cases.append({'kind': 'circuit', 'mode': 'shift', 'n': n, 'g1': g1, 'shifts': shifts})
-            cases.append({'kind': 'circuit', 'mode': 'torch', 'n': n, 'g1': g1})
-            cases.append({'kind': 'circuit', 'mode': 'seeded', 'n': n, 'g1': g1, 'n_seed': 2 if quick else 6})
+            cases.append({'kind': 'circuit', 'mode': 'torch', 'n': n, 'g1': g1, 'complex64': (not quick) or g1 in (None, ['ry', n - 1, n - 1])})
+            small = g1 in gate_menu(n, False)  # quick tier: the new seed forms on the reduced g1 menu only
+            cases.append({'kind': 'circuit', 'mode': 'seeded', 'n': n, 'g1': g1, 'n_seed': 2 if quick else 6, 'n_shared': (1 if small else 0) if quick else 4,
+                          'unseeded': ([[None, 'omitted']] if small else []) if quick else [[None, 'omitted'], ['omitted', None]]})
+        for g1 in gate_menu(n, (not quick) and n == 2):
+            cases.append({'kind': 'circuit', 'mode': 'index_form', 'n': n, 'g1': g1})
+    # composition: c1 = [front] + extend_circuit(c0) / append_gate, then c1.shift_qubit_index_(d); c1 is run (c0 afterwards: out of scope)
+    for n in ([2] if quick else [2, 3]):
+        fronts = [['X', 0]] if quick else [['X', 0], ['H', n - 1], ['cnot', n - 1, 0]]
+        for g1 in ([None, ['H', 0]] if n == 3 else gate_menu(n, not quick)):
+            cases.append({'kind': 'circuit', 'mode': 'compose', 'n': n, 'g1': g1, 'fronts': fronts, 'shifts': [0, 1, 2]})
+    info['compose'] = {'n': [2] if quick else [2, 3], 'front_gates': 1 if quick else 3, 'shifts': [0, 1, 2], 'via': ['extend_circuit', 'append_gate'],
+                       'run': 'outer circuit only'}
     info['shifts'] = shifts
+    info['argument_axes'] = {'index_forms': ['tuple'] + INDEX_FORMS, 'seed_forms': ['stub', 'int', 'None', 'omitted', 'shared np.random.Generator'],
+                             'q0_layouts': ['contiguous', 'step2 view', 'column view'], 'q0_layout_states': 'one per class' if quick else 'all',
+                             'torch': ['fixed gates', 'trainable ry', 'complex64 input']}
     info['exhaustive'] = True
     info['note'] = ('exhaustive within the stated bounds: all non-empty ascending subsets for n<=6 x the listed state alphabet x all outcomes of '
                     'non-zero probability; all unordered subset pairs in both orders; all programs of the stated shape')
